@@ -20,8 +20,8 @@ import (
 
 var Clients = []string{"203.0.113.5:4000", "203.0.113.5:4001", "203.0.113.9:4000", "[2001:db8:1::7]:4000"}
 
-// Targets: index 0 and 3 are DNS ports.
-var Targets = []string{"93.184.216.34:53", "93.184.216.34:80", "[2606:2800:220:1:248:1893:25c8:1946]:443", "93.184.216.40:53", "[fe80::1%eth0]:53", "[fe80::1234:5678:9abc:def0%a-very-long-zone-name]:8080"}
+// Targets: index 0 and 3 are DNS ports; index 6 is NOT a DNS port although it ends in "53".
+var Targets = []string{"93.184.216.34:53", "93.184.216.34:80", "[2606:2800:220:1:248:1893:25c8:1946]:443", "93.184.216.40:53", "[fe80::1%eth0]:53", "[fe80::1234:5678:9abc:def0%a-very-long-zone-name]:8080", "93.184.216.34:8053"}
 
 // Stranger addresses (never a destination of the client).
 var Strangers = []string{"198.51.100.77:7777", "198.51.100.77:53"}
@@ -36,6 +36,7 @@ type Op struct {
 	D   time.Duration `json:"d,omitempty"`   // A; sub-operations of P: delay before acting
 	Par []Op          `json:"par,omitempty"` // P: operations issued concurrently by separate threads
 	Raw []byte        `json:"raw,omitempty"` // S: the whole authenticated plaintext (address header included)
+	L   int           `json:"l,omitempty"`   // S: which listener of the service the datagram is sent to (0 = first)
 }
 
 func (o Op) String() string { b, _ := json.Marshal(o); return string(b) }
@@ -85,6 +86,7 @@ type Config struct {
 	FailSocket int // the n-th outbound socket creation fails (0 = never)
 	Validator  string // "" default policy | "allow-all"
 	Hosts      map[string][]string // extra resolver entries
+	Listeners  int                 // UDP listeners of the service, all served by the same handler (default 1)
 }
 
 func DefaultKeys() []*world.Key {
@@ -133,13 +135,18 @@ func Run(cfg Config, ops []Op, tr *Trace) {
 		w.H.SetTargetIPValidator(func(net.IP) error { return nil })
 	}
 	w.Start()
+	proxies := []*net.UDPAddr{world.UDPAddr(world.ProxyUDP)}
+	for i := 1; i < cfg.Listeners; i++ {
+		a := fmt.Sprintf("127.0.0.1:%d", 9000+i)
+		w.StartExtra(a)
+		proxies = append(proxies, world.UDPAddr(a))
+	}
 	for _, t := range Targets {
 		w.Sock(t)
 	}
 	for _, s := range Strangers {
 		w.Sock(s)
 	}
-	proxy := world.UDPAddr(world.ProxyUDP)
 	natSock := map[int]*vnet.UDPConn{}
 	knownSocks := map[*vnet.UDPConn]bool{}
 	for _, u := range vw.UDPSockets() {
@@ -235,7 +242,7 @@ func Run(cfg Config, ops []Op, tr *Trace) {
 						plain := append(append([]byte{}, world.Addr(Targets[sub.T])...), payload...)
 						wire := world.PackUDP(key, uint64(1000+i*16+j), plain)
 						ss.Sent, ss.Plain, ss.Dst = wire, payload, Targets[sub.T]
-						w.Sock(Clients[sub.C]).SendRaw(wire, proxy)
+						w.Sock(Clients[sub.C]).SendRaw(wire, proxies[sub.L%len(proxies)])
 					case "R", "X":
 						if ss.ReplyPort == 0 {
 							ss.Skipped = true
@@ -303,7 +310,7 @@ func Run(cfg Config, ops []Op, tr *Trace) {
 			}
 			st.Sent, st.Plain, st.Dst = wire, payload, dst
 			sock := w.Sock(Clients[op.C])
-			sock.SendRaw(wire, proxy)
+			sock.SendRaw(wire, proxies[op.L%len(proxies)])
 			observe(st, c)
 		case "R", "X":
 			u := natSock[op.C]
